@@ -13,6 +13,7 @@ import (
 	"go/types"
 	"os"
 	"path/filepath"
+	"regexp"
 	"sort"
 	"strings"
 	"sync"
@@ -92,6 +93,9 @@ type UnitJSON struct {
 	FuzzTest   string         `json:"fuzz_test,omitempty"`
 }
 
+var caseFn, coverFns string
+var skipRe *regexp.Regexp
+
 func main() {
 	repo := flag.String("repo", "/repo", "repository root")
 	pkgPat := flag.String("pkg", "./replication", "package pattern")
@@ -106,12 +110,18 @@ func main() {
 	ifacetag := flag.String("ifacetag", "", "Interface=Concrete[,..]: values of the interface type are assumed to have the concrete dynamic type (names as pkg.Type)")
 	opq := flag.String("opaque", "", "comma separated spec functions kept abstract")
 	assume := flag.String("assume", "", "extra raw SMT assumption over parameter names, e.g. (= typ #x03)")
+	skipS := flag.String("skip", "", "regular expression: obligations with a matching name are not sent to a solver and are reported with status assumed")
+	flag.StringVar(&caseFn, "case", "", "case split: name of a bool function over the parameters (like requires) assumed in addition to requires")
+	flag.StringVar(&coverFns, "covers", "", "comma separated case functions; adds the obligation requires => (case1 || case2 || ...)")
 	setv := flag.String("set", "", "bind scalar parameters to constants: name=val,name=val")
 	suffix := flag.String("contract", "", "contract variant suffix: use vc_<Func>__<variant>_* instead of vc_<Func>_*")
 	second := flag.Bool("second", false, "thorough tier: re-check every discharged obligation with a second solver")
 	noReplay := flag.Bool("noreplay", false, "do not concretise models")
 	jobs := flag.Int("jobs", 8, "obligations discharged in parallel")
 	flag.Parse()
+	if *skipS != "" {
+		skipRe = regexp.MustCompile("^(" + *skipS + ")$")
+	}
 	t0 := time.Now()
 	res := UnitJSON{Pkg: *pkgPat, Func: *fname, Set: *setv, ByBackend: map[string]int{}, Bounded: *bound}
 	res.Unit = *pkgPat + ":" + *fname
@@ -154,7 +164,7 @@ func main() {
 	e := &Engine{prog: prog, pkgs: map[string]*ssa.Package{}, inc: NewInc(), maxPaths: 20000,
 		loopHdr: map[*ssa.Function]map[*ssa.BasicBlock]int{}, loopBody: map[*ssa.BasicBlock]map[*ssa.BasicBlock]bool{},
 		bounded: *bound, trace: *trace, warnings: map[string]bool{}, havoc: map[string]bool{},
-		recFns: map[*ssa.Function]bool{}, recApps: map[string]recApp{}, recAxioms: map[string][]*Term{}, memo: map[string][]Val{},
+		recFns: map[*ssa.Function]bool{}, recApps: map[string]recApp{}, recAxioms: map[string][]*Term{}, recTemplates: map[string]recApp{}, memo: map[string][]Val{},
 		opaque: map[string]bool{}, depCache: map[*ssa.Function]map[string]bool{}, leafCache: map[*ssa.Function][]heapLeaf{},
 		variant: *suffix}
 	for _, o := range strings.Split(*opq, ",") {
@@ -284,6 +294,11 @@ func main() {
 			o.Res = Result{Status: "unsat", Solver: "trivial"}
 			continue
 		}
+		if skipRe != nil && skipRe.MatchString(o.Name) {
+			// declared as an assumption of this unit by the caller: reported as such, never as discharged
+			o.Res = Result{Status: "assumed", Solver: "none"}
+			continue
+		}
 		wg.Add(1)
 		go func(k int, o *Obligation) {
 			defer wg.Done()
@@ -323,7 +338,7 @@ func main() {
 	if !*noReplay {
 		nconc := 0
 		for _, o := range e.obls {
-			if o.Res.Status != "unsat" {
+			if o.Res.Status != "unsat" && o.Res.Status != "assumed" {
 				nconc++
 				if nconc > 4 {
 					o.ReplayNote = "model not concretised (more than 4 failed obligations in this unit)"
@@ -587,6 +602,25 @@ func (e *Engine) verifyUnit(fn *ssa.Function, extra string, setv string) {
 		st.assumeT(e.evalContract(st, req, rargs, true))
 	} else {
 		e.warn("no requires for %s", fn.Name())
+	}
+	if coverFns != "" {
+		// the case split of this function's units is exhaustive: requires => some case
+		any := tFalse
+		for _, n := range strings.Split(coverFns, ",") {
+			cf := e.note(fn.Pkg.Func(n))
+			if cf == nil {
+				fail("no case function %s", n)
+			}
+			any = Or(any, e.evalContract(st, cf, args[:min(len(args), len(cf.Params))], false))
+		}
+		e.oblige(st, "case-cover", any, "the case split is exhaustive under requires")
+	}
+	if caseFn != "" {
+		cf := e.note(fn.Pkg.Func(caseFn))
+		if cf == nil {
+			fail("no case function %s", caseFn)
+		}
+		st.assumeT(e.evalContract(st, cf, args[:min(len(args), len(cf.Params))], true))
 	}
 	if !e.inc.Sat(st.pc) {
 		fail("requires of %s is unsatisfiable (vacuous contract)", fn.Name())
